@@ -623,6 +623,8 @@ func (sc *scen) act(r *rand.Rand) {
 			// a per-stream request that selects nothing closes the down stream, and the
 			// per-stream request dies with it: like an abort, until the next 'request'
 			c.aborted[id] = true
+			delete(c.override, id)
+			delete(c.maybe, id)
 		} else {
 			c.override[id] = kinds
 			// a per-stream request that selects something makes the publisher push the
@@ -681,6 +683,10 @@ func (sc *scen) act(r *rand.Rand) {
 		id := heldStreams[r.IntN(len(heldStreams))]
 		sc.note(fmt.Sprintf("%s aborts downstream %s", c.name, id))
 		c.aborted[id] = true
+		// the down stream dies with the abort, and its per-stream request with it (whatever
+		// else this client does before the next check)
+		delete(c.override, id)
+		delete(c.maybe, id)
 		others := sc.snapshotOthers(c)
 		c.c.Send(vclient.Msg{"type": "abort", "id": id})
 		sc.run.Count("aborts", 1)
